@@ -349,7 +349,7 @@ class EventMixin (object):
     if type(handler) == tuple:
       # It's a type/eid pair
       if eventType == None: eventType = handler[0]
-      handlers = self._eventMixin_handlers[eventType]
+      handlers = self._eventMixin_handlers.get(eventType, [])
       l = len(handlers)
       self._eventMixin_handlers[eventType] = [x for x in handlers
                                               if x[3] != handler[1]]
